@@ -11,9 +11,12 @@
    (second conjunct), the constructor calls made on the merged tuples succeed (emit_ok); the model writes their results down
    without a constructor.  A source edit that changes cidr_merge or IPRange.cidrs (or iprange_to_cidrs, spanning_cidr,
    cidr_partition, which they call) changes the generated term and this theorem stops compiling.
+   Last conjunct: the symbol py_cidr_merge that stands for cidr_merge in the SubnetSplitter unit (Model/SrcPreludeSplitter.v,
+   Props/C20_src.v) is this regenerated cidr_merge on lists of well-formed IPNetwork objects.
    Nothing but the statement closed by `exact`, followed by Print Assumptions. *)
 From NV Require Import Base.Tac Base.PyVal Model.Ip Model.Merge Model.SrcPrelude Model.SrcPreludeSRCE Gen.pysrc_gen
-  Gen.pysrc_merge_gen Proofs.NetDen Proofs.GenOk_Src_C05_merge.
+  Gen.pysrc_merge_gen Proofs.C02 Proofs.NetDen Proofs.GenOk_Src_C05_merge.
+From NV Require Model.SrcPreludeSplitter.
 Import ListNotations.
 Open Scope Z_scope.
 
@@ -24,7 +27,8 @@ Theorem C05_source_tie_merge :
      src_cidr_merge_loop2 fuel (Z.of_nat (length before)) (rev before ++ cur :: done) = Ok (merge_scan cur before done)) /\
   (forall xs acc, src_cidr_merge_loop1 xs acc = acc ++ map rt_of xs) /\
   (forall xs, Forall emit_ok xs -> forall merged, src_cidr_merge_loop3 xs merged = omap (fun r => merged ++ r) (emit_merged xs)) /\
-  (forall ver w s e, valid_ver ver = true -> src_IPRange_cidrs ver w s e = iprange_to_cidrs (addr_net ver s) (addr_net ver e)).
+  (forall ver w s e, valid_ver ver = true -> src_IPRange_cidrs ver w s e = iprange_to_cidrs (addr_net ver s) (addr_net ver e)) /\
+  (forall l, Forall wf_net l -> SrcPreludeSplitter.py_cidr_merge l = src_cidr_merge (map MNet l)).
 Proof. exact C05_merge_tie_ok. Qed.
 Print Assumptions C05_source_tie_merge.
 
